@@ -226,6 +226,27 @@ func main() {
 		}
 	}
 	skels = uniq
+	// runs of empty members: every emptiness pattern of five members (lines of a
+	// multi-line string, rings of a polygon, polygons of a multi-polygon, members
+	// of a collection)
+	for mask := 0; mask < 32; mask++ {
+		var lines, rings, polys, mixed []geomgen.Skel
+		for k := 0; k < 5; k++ {
+			n := 0
+			if mask>>uint(k)&1 == 1 {
+				n = 1 + k%2
+			}
+			lines = append(lines, geomgen.Skel{Kind: geomgen.KLineString, N: n})
+			rings = append(rings, geomgen.Skel{Kind: geomgen.KRing, N: n})
+			polys = append(polys, geomgen.Skel{Kind: geomgen.KPolygon, Kids: []geomgen.Skel{{Kind: geomgen.KRing, N: n}}})
+			mixed = append(mixed, []geomgen.Skel{{Kind: geomgen.KLineString, N: n}, {Kind: geomgen.KMultiPoint, N: n}, {Kind: geomgen.KPolygon, Kids: []geomgen.Skel{{Kind: geomgen.KRing, N: n}}}}[k%3])
+		}
+		skels = append(skels,
+			geomgen.Skel{Kind: geomgen.KMultiLineString, Kids: lines},
+			geomgen.Skel{Kind: geomgen.KPolygon, Kids: rings},
+			geomgen.Skel{Kind: geomgen.KMultiPolygon, Kids: polys},
+			geomgen.Skel{Kind: geomgen.KCollection, Kids: mixed})
+	}
 	r.Set("skeletons", len(skels))
 	var ngeom, nontrivial int64
 	enum.Parallel(len(skels), r.Expired, func(i int) {
